@@ -368,10 +368,10 @@ class CommonRD:
         try:
             oldreg = self._by_key[key]
         except KeyError:
+            oldreg = None
             path = self._new_pathtail()
         else:
             path = oldreg.path[len(self.entity_prefix) :]
-            oldreg.delete()
 
         # this was the brutal way towards idempotency (delete and re-create).
         # if any actions based on that are implemented here, they have yet to
@@ -387,6 +387,8 @@ class CommonRD:
         def setproxyremote(remote):
             self.proxy_active[proxy_host] = remote
 
+        # Constructing the registration validates its parameters (and raises on
+        # bad ones); an old registration is only replaced once that succeeded.
         reg = self.Registration(
             static_registration_parameters,
             self.entity_prefix + path,
@@ -397,6 +399,12 @@ class CommonRD:
             proxy_host,
             setproxyremote,
         )
+
+        if oldreg is not None:
+            oldreg.delete()
+            if proxy_host is not None:
+                # deleting the old registration cleared the entry the new one set
+                setproxyremote(network_remote)
 
         self._by_key[key] = reg
         self._by_path[path] = reg
